@@ -1929,28 +1929,94 @@ func supervise(c *Case, phase string, done <-chan struct{}, release func()) (sta
 	tick := time.NewTicker(200 * time.Millisecond)
 	defer tick.Stop()
 	last, lastChange := atomic.LoadInt64(&progress), time.Now()
+	released := false
+	blockedDumps := 0 // consecutive dumps, without progress in between, in which every goroutine was blocked
+	var lastDump time.Time
 	for {
 		select {
 		case <-done:
 			return stalled
 		case <-tick.C:
 			p := atomic.LoadInt64(&progress)
-			switch {
-			case p != last:
-				last, lastChange = p, time.Now()
-			case time.Since(lastChange) <= stallLimit:
-			case stalled == "":
-				buf := make([]byte, 1<<20)
-				stalled = gormStacks(string(buf[:runtime.Stack(buf, true)]))
-				release()
-				lastChange = time.Now()
-			default:
-				fmt.Println("VERIF-FAILURE-BEGIN\nC07 violated: " + phase + ": no operation finished for " + stallLimit.String() + ", also after the pool was closed (deadlock or endless loop)\ncase: " + c.String() + "\ncase-json: " + c.JSON() + "\n" + stalled + "\nVERIF-FAILURE-END")
-				evid.Flush()
-				os.Exit(1)
+			if p != last {
+				last, lastChange, blockedDumps = p, time.Now(), 0
+				continue
 			}
+			// The verdict comes from the goroutine states: when every goroutine that runs operations,
+			// gorm or database/sql code is blocked (lock, channel, select) in two dumps taken a second
+			// apart and nothing finished in between, nothing can wake them - a deadlock. The clock
+			// only paces the dumps. (stallLimit remains as the bound for endless loops.)
+			verdict := false
+			if time.Since(lastChange) > time.Second && time.Since(lastDump) > time.Second {
+				buf := make([]byte, 1<<20)
+				dump := string(buf[:runtime.Stack(buf, true)])
+				lastDump = time.Now()
+				if allBlocked(dump) {
+					blockedDumps++
+				} else {
+					blockedDumps = 0
+				}
+				if blockedDumps >= 2 {
+					verdict = true
+					if stalled == "" {
+						stalled = "every goroutine is blocked (two dumps a second apart, no operation finished in between):\n" + gormStacks(dump)
+					}
+				}
+			}
+			if !verdict && time.Since(lastChange) > stallLimit {
+				verdict = true
+				if stalled == "" {
+					buf := make([]byte, 1<<20)
+					stalled = "no operation finished for " + stallLimit.String() + ":\n" + gormStacks(string(buf[:runtime.Stack(buf, true)]))
+				}
+			}
+			if !verdict {
+				continue
+			}
+			if !released {
+				// closing the pool fails every call that waits for a connection: the goroutines of a
+				// pool-related deadlock end with errors
+				released = true
+				release()
+				lastChange, blockedDumps = time.Now(), 0
+				continue
+			}
+			fmt.Println("VERIF-FAILURE-BEGIN\nC07 violated: " + phase + ": deadlock or endless loop - the goroutines do not end, also after the pool was closed\ncase: " + c.String() + "\ncase-json: " + c.JSON() + "\n" + stalled + "\nVERIF-FAILURE-END")
+			evid.Flush()
+			os.Exit(1)
 		}
 	}
+}
+
+// allBlocked: every goroutine of the dump that is inside an operation, gorm or database/sql (the
+// pool's opener included) waits for a lock, a channel or a select; none is running, runnable or in
+// a system call. The test's own goroutines (this watchdog, the testing package) are not counted.
+func allBlocked(dump string) bool {
+	seen := false
+	for _, g := range strings.Split(dump, "\n\n") {
+		if !strings.HasPrefix(g, "goroutine ") {
+			continue
+		}
+		if !(strings.Contains(g, "gorm.io/gorm") || strings.Contains(g, "database/sql") || strings.Contains(g, "c07.runProgram")) {
+			continue
+		}
+		if strings.Contains(g, "c07.supervise") {
+			continue
+		}
+		head := g[:strings.Index(g, "\n")+1]
+		lb, rb := strings.Index(head, "["), strings.Index(head, "]")
+		if lb < 0 || rb < lb {
+			return false
+		}
+		state := strings.Split(head[lb+1:rb], ",")[0]
+		switch state {
+		case "chan receive", "chan send", "select", "sync.Mutex.Lock", "sync.RWMutex.Lock", "sync.RWMutex.RLock", "semacquire", "sync.Cond.Wait", "sync.WaitGroup.Wait", "chan receive (nil chan)", "select (no cases)":
+			seen = true
+		default:
+			return false
+		}
+	}
+	return seen
 }
 
 // gormStacks keeps the goroutines of a full stack dump that are inside gorm.
